@@ -125,11 +125,23 @@ def observe_sbs_row(row):
     or decoration row)."""
     runs = [(t, classify_style(st), st) for t, st in row.runs if t != ""]
     # erase-to-eol belongs to the right panel
+    # the right panel starts at the first gutter-styled cell that follows left-panel content
     k = None
+    seen_body = False
+    if not any(c == "ln_right" for _, c, _ in runs):
+        return None
     for i, (t, c, st) in enumerate(runs):
-        if c == "ln_right":
-            k = i
-            break
+        if c in LN:
+            if seen_body:
+                k = i
+                break
+        else:
+            seen_body = True
+    if k is None:
+        for i, (t, c, st) in enumerate(runs):
+            if c == "ln_right":
+                k = i
+                break
     if k is None:
         return None
     r = SbsRow()
